@@ -255,6 +255,8 @@ def run(ctx, rep):
     ords = [x for x in subterms(G) if x and x[0] == 'app' and x[1].endswith('Datelike>::ordinal')]
     yrs = [x for x in subterms(G) if x and x[0] == 'app' and x[1].endswith('Datelike>::year')]
     if len(set(ords)) == 1 and len(set(yrs)) == 1 and ords[0][2] == (date,) and yrs[0][2] == (date,):
+        cn.set_lower_bound(ords[0], 1)      # common era: year() >= 1, ordinal() >= 1
+        cn.set_lower_bound(yrs[0], 1)
         v = F.compare_polys(cn.cf(ref_greg_abs(ords[0], yrs[0])), cn.cf(G))
         rep.ob('R17.1', 'gregorian-day-number', {'equal': True, 'different': False}.get(v),
                'day number = ordinal + 365(y-1) + floor((y-1)/4) - floor((y-1)/100) + floor((y-1)/400)' if v == 'equal' else
